@@ -111,6 +111,22 @@ SUITES["struct3p"] = {
     "kinds": [1, 2, 3, 4, 5, 6], "depth": {"quick": 4, "thorough": 7}, "maxid": 8,
     "design_depth": {"quick": 2, "thorough": 4},
 }
+# larger universes, explored from seeds only
+SUITES["struct5s"] = {
+    "tla": {"N": "5", "T": "4", "Dims": "<- D_none", "Scale": "<- S_none"},
+    "cfg": {"N": 5, "T": 4, "dims": [], "scale": [], "use_scale": True, "reg_cust": False,
+            "per_axis_pos": False, "name": "struct5s"},
+    "kinds": [1, 2, 3, 4, 5, 6], "seeds": "SeedsStruct5s",
+    "depth": {"quick": 0, "thorough": 1}, "maxid": 12,
+    "design_depth": {"quick": 0, "thorough": 0}, "sample": {"quick": 50, "thorough": 3000},
+}
+SUITES["struct5"] = dict(SUITES["struct5s"])        # universe of the random sessions
+SUITES["seg6s"] = _seg_suite("seg6s", [1, 3], "D_1x3", [1, 1], "S_11", depth=(0, 1), sample={"quick": 20, "thorough": 1500})
+SUITES["seg6s"]["tla"] = {"N": "6", "T": "3", "Dims": "<- D_1x3", "Scale": "<- S_11"}
+SUITES["seg6s"]["cfg"]["N"] = 6
+SUITES["seg6s"]["seeds"] = "SeedsSeg6s"
+SUITES["seg6s"]["maxid"] = 12
+SUITES["seg6s"]["design_depth"] = {"quick": -1, "thorough": 0}
 # primitive actions called directly (C01): action, .inverse(), .inverse().inverse()
 SUITES["prims3"] = {
     "tla": SUITES["struct3"]["tla"],
